@@ -14,5 +14,6 @@ From Chess3 Require Export Model.TT Spec.TTSpec.
 From Chess3 Require Export Model.Hist Model.Picker Spec.PickerSpec.  (* C16 *)
 From Chess3 Require Export Model.FenStreams.
 From Chess3 Require Export Spec.FenSpec.
+From Chess3 Require Export Model.AttacksStream.
 
 Extraction Language OCaml.
